@@ -83,6 +83,17 @@ def run(ctx: Ctx) -> Result:
                 elif ok and not (wk == 'single' and lk == 'single') :
                     # cross-pairings unlock only by coincidence of layout; none of these layouts coincide
                     B.viol(f'{wk} witness unlocks a {lk} lock', {**inp, 'scripts': [w.bytes.hex(), l.bytes.hex()], 'cache': vmrun.cache_str(sf, False)}, False, v)
+        # two key-path spends of the same graftap / taproot lock over different sigfields: the signatures must not share their nonce point
+        # (with a shared R the key follows from the two public witnesses: x = (s1 - s2) / (c1 - c2) - "exactly the intended holder" is over)
+        try:
+            sfb = {**sf, 'sigfield1': sf.get('sigfield1', b'') + b'#2'}
+            covered1 = not (int(wf, 16) & 1)
+            wa_ = T.make_graftap_witness_keyspend(seeds[0], sf, wf).bytes; wb_ = T.make_graftap_witness_keyspend(seeds[0], sfb, wf).bytes
+            res.note_case((tuple(seeds), 'nonce-history', wf))
+            if covered1 and wa_[2:34] == wb_[2:34] and wa_ != wb_:
+                B.viol('graftap key path: two witnesses by the same key over different sigfields share the nonce point R', {**inp, 'scripts': [wa_.hex(), wb_.hex()], 'cache': vmrun.cache_str(sf, False)}, 'different R', wa_[2:34].hex())
+        except BaseException as e:
+            if isinstance(e, (KeyboardInterrupt, SystemExit)): raise
         # a script-hash lock whose commitment differs from the witness script's digest in ONE bit - wherever in the digest that bit
         # is (first byte, a middle byte, last byte) - does not run the script
         import hashlib as _hl
